@@ -85,22 +85,24 @@ def lib_sources():
     d = os.path.join(REPO, 'src')
     return sorted(os.path.join(d, f) for f in os.listdir(d) if f.endswith('.cpp'))
 
-_libso = None
-def full_lib_so():
-    """the whole library built from the current tree with g++ -O2 (for replay programs)"""
-    global _libso
-    if _libso is None:
+_libso = {}
+SAN = ['-fsanitize=undefined,address,float-cast-overflow', '-fno-sanitize-recover=all', '-fno-omit-frame-pointer', '-g']
+def full_lib_so(sanitize=False):
+    """the whole library built from the current tree with g++ (-O2; or -O1 with UBSan/ASan for replays)"""
+    if sanitize not in _libso:
         sc = scratch(); objs = []
         procs = []
+        flags = (['-O1'] + SAN) if sanitize else ['-O2']
         for src in lib_sources():
-            o = os.path.join(sc, 'lib-' + os.path.basename(src) + '.o'); objs.append(o)
-            procs.append(subprocess.Popen(['g++', '-std=c++14', '-O2', '-fPIC', '-DNDEBUG', '-w', '-c'] + incflags() + [src, '-o', o], stderr=subprocess.PIPE))
+            o = os.path.join(sc, 'lib-%s%s.o' % ('san-' if sanitize else '', os.path.basename(src))); objs.append(o)
+            procs.append(subprocess.Popen(['g++', '-std=c++14', '-fPIC', '-DNDEBUG', '-w', '-c'] + flags + incflags() + [src, '-o', o], stderr=subprocess.PIPE))
         for p in procs:
             _, err = p.communicate()
             if p.returncode: raise RuntimeError('g++ failed: ' + err.decode()[-2000:])
-        _libso = os.path.join(sc, 'libGeographicLib_vf.so')
-        subprocess.check_call(['g++', '-shared', '-o', _libso] + objs)
-    return _libso
+        out = os.path.join(sc, 'libGeographicLib_vf%s.so' % ('_san' if sanitize else ''))
+        subprocess.check_call(['g++', '-shared', '-o', out] + (SAN if sanitize else []) + objs)
+        _libso[sanitize] = out
+    return _libso[sanitize]
 
 def repo_state():
     """identify the tree being checked (HEAD + dirty hash) for the evidence"""
